@@ -120,6 +120,19 @@ Check mlar_keyderive_sample_two_paths.
 Check mlar_keyderive_sample_one_path.
 Check keyderive_no_path.
 
+(* Tie A, level 1 (work package capiT): generate_keypair / KeyPair::*_as_pem as translated from
+   curve25519-parser/src/lib.rs on this run are the functions keygen / keyderive are modelled with *)
+From MLA Require SrcTie3Keys.
+From MLAGen Require Src3k.
+Theorem C19_tie_generate_keypair : forall x25519_base seed kp,
+  Src3k.generate_keypair x25519_base seed = generate_keypair_from_seed x25519_base seed /\
+  Src3k.private_as_pem (fst kp) = private_as_pem kp /\ Src3k.public_as_pem (snd kp) = public_as_pem kp.
+Proof. exact (fun b s kp => conj (SrcTie3Keys.generate_keypair_src b s) (SrcTie3Keys.as_pem_src kp)). Qed.
+Example C19_tie_nonvacuous :
+  fst (Src3k.generate_keypair (fun s => s) (repeat 1 32)) = PRIV_KEY_PREFIX ++ repeat 1 32.
+Proof. reflexivity. Qed.
+
+
 Print Assumptions C19_derive_compose.
 Print Assumptions C19_keyderive_files_compose.
 Print Assumptions C19_keyderive_files_is_fold.
@@ -131,3 +144,4 @@ Print Assumptions C19_derive_code_eq_doc.
 Print Assumptions C19_D18_refuted.
 Print Assumptions C19_D18_refuted_clamped_parent_two_paths.
 Print Assumptions C19_tieA_names_sizes_prefixes.
+Print Assumptions C19_tie_generate_keypair.
